@@ -84,6 +84,40 @@ def build(m: Dict[str, Any], note_as_object: bool = False, **db_kwargs):
     return db
 
 
+def build_moved(m: Dict[str, Any], **db_kwargs):
+    """Everything is built in ANOTHER database whose allow_properties flag is the opposite one, rendered there, and then
+    moved, element by element through the public delete/add methods, into a new database with the flag of m: what an element
+    shows must follow the database it is in NOW."""
+    from pydbml.database import Database
+    other = dict(m, allowprops=not m['allowprops'])
+    src = build(other, **db_kwargs)
+    for kind in ('dbml', 'sql'):
+        try:
+            getattr(src, kind)
+            for t in src.tables:
+                getattr(t, kind)
+                for c in t.columns:
+                    getattr(c, kind)
+        except Exception:
+            pass
+    enums, tables, refs = list(src.enums), list(src.tables), list(src.refs)
+    groups, notes, project = list(src.table_groups), list(src.sticky_notes), src.project
+    for r in refs:
+        src.delete(r)
+    for g in groups:
+        src.delete(g)
+    if project is not None:
+        src.delete_project()
+    for t in tables:
+        src.delete(t)
+    for e in enums:
+        src.delete(e)
+    db = Database(allow_properties=m['allowprops'], **db_kwargs)
+    for o in enums + tables + groups + notes + ([project] if project is not None else []) + refs:
+        db.add(o)
+    return db
+
+
 def build_abstract(m: Dict[str, Any], **db_kwargs):
     """built through the API with the public constructor flag abstract=True (the flag of many-to-many join tables) on
     every table that holds no inline foreign key: for such a table the flag changes nothing the properties speak about"""
